@@ -1423,6 +1423,27 @@ class Interp:
             return chr(args[0])
         if isinstance(fn, ast.Name) and fn.id in ('max', 'min', 'sorted', 'sum') and fn.id not in env and args and isinstance(args[0], PyIter):
             args = [args[0].drain()] + list(args[1:])          # an iterator is walked once, whichever branch below takes the call
+        if isinstance(fn, ast.Name) and fn.id == 'hash' and 'hash' not in env and 'hash' not in h.hooks and len(args) == 1 and not kwargs:
+            # hash(x): of a decided text / number / tuple of such -- CPython's own (equal values, equal hashes, within this run); of an
+            # object of the module -- its __hash__, else its identity
+            def plain_(v_):
+                if isinstance(v_, SStr) and v_.concrete() is not None:
+                    return v_.concrete()
+                if isinstance(v_, Key):
+                    return ('#key', v_.cls)
+                if isinstance(v_, tuple) and not (v_ and isinstance(v_[0], str) and v_[0] in ('regex', 'record', 'partial', 'class', 'hook', 'extern')):
+                    return tuple(plain_(y_) for y_ in v_)
+                if v_ is None or isinstance(v_, (str, bytes, int, float, bool, frozenset)):
+                    return v_
+                raise AnalysisError('heap model: hash of %s' % norm(e)[:60])
+            if isinstance(args[0], Ref) and h.objs[args[0].name]['__class__'] in h.module.classes:
+                hf_ = h.module.method(h.objs[args[0].name]['__class__'], '__hash__')
+                if hf_ is not None:
+                    return self.call(Closure(hf_.node, {}, args[0], hf_.cls), [])
+                return hash(('#object', args[0].name))
+            if isinstance(args[0], Ref):
+                raise Raised('TypeError', h.version, e.lineno)          # a list / a dictionary is unhashable
+            return hash(plain_(args[0]))
         if isinstance(fn, ast.Name) and fn.id == 'sum' and 'sum' not in env and 1 <= len(args) <= 2 and set(kwargs) <= {'start'}:
             vals = self.seq(args[0])
             start_ = args[1] if len(args) == 2 else kwargs.get('start', 0)
@@ -1587,11 +1608,18 @@ class Interp:
         if norm(fn) in ('io.StringIO', 'StringIO') and norm(fn).split('.')[0] not in env and len(args) <= 1 and not kwargs:
             # a text buffer of the model: what is written to it, in order (read back with getvalue())
             return h.alloc('#StringIO', {'buf': args[0] if args else ''})
+        if norm(fn) in ('io.BytesIO', 'BytesIO') and norm(fn).split('.')[0] not in env and norm(fn) not in h.hooks and len(args) <= 1 and not kwargs \
+                and (not args or isinstance(args[0], bytes)):
+            return h.alloc('#StringIO', {'buf': args[0] if args else b''})          # ... and a buffer of bytes
         if isinstance(fn, ast.Attribute) and fn.attr in ('write', 'getvalue', 'close') and isinstance(fn.value, (ast.Name, ast.Attribute)):
             b_ = self.ev(fn.value, env, cls)
             if isinstance(b_, Ref) and h.objs[b_.name]['__class__'] == '#StringIO':
                 o_ = h.objs[b_.name]
-                if fn.attr == 'write' and len(args) == 1 and isinstance(args[0], (str, SStr)):
+                if fn.attr == 'write' and len(args) == 1 and isinstance(args[0], bytes) and isinstance(o_['buf'], bytes):
+                    h.touch(b_.name)
+                    o_['buf'] = o_['buf'] + args[0]
+                    return len(args[0])
+                if fn.attr == 'write' and len(args) == 1 and isinstance(args[0], (str, SStr)) and not isinstance(o_['buf'], bytes):
                     h.touch(b_.name)
                     o_['buf'] = (symstr.lift(o_['buf']) + symstr.lift(args[0])) if (isinstance(o_['buf'], SStr) or isinstance(args[0], SStr)) else o_['buf'] + args[0]
                     c_ = o_['buf'].concrete() if isinstance(o_['buf'], SStr) else o_['buf']
@@ -1705,6 +1733,14 @@ class Interp:
         if isinstance(fn, ast.Name) and fn.id == 'hasattr' and 'hasattr' not in env and len(args) == 2 and not kwargs and isinstance(args[1], str) \
                 and (args[0] is None or type(args[0]) in (str, bytes, int, bool, float, list, dict, set, frozenset) or (type(args[0]) is tuple and not (args[0] and isinstance(args[0][0], str)))):
             return hasattr(args[0], args[1])          # a decided plain value: what its type offers
+        if isinstance(fn, ast.Name) and fn.id == 'getattr' and 'getattr' not in env and len(args) == 3 and not kwargs and isinstance(args[1], str) \
+                and (args[0] is None or type(args[0]) in (str, bytes, int, bool, float, list, dict, set, frozenset) or isinstance(args[0], PyIter)
+                     or (isinstance(args[0], Ref) and h.objs[args[0].name]['__class__'] in ('list', 'dict'))):
+            # getattr(value, name, default) on a decided plain value / a builtin container / an iterator: a DATA attribute they do not have
+            probe_ = args[0] if not isinstance(args[0], (PyIter, Ref)) else (iter(()) if isinstance(args[0], PyIter) else ([] if h.objs[args[0].name]['__class__'] == 'list' else {}))
+            if not hasattr(probe_, args[1]):
+                return args[2]
+            raise AnalysisError('heap model: getattr(%s, %r, ...) of a builtin value' % (type(probe_).__name__, args[1]))
         if isinstance(fn, ast.Name) and fn.id == 'hasattr' and 'hasattr' not in env and len(args) == 2 and not kwargs and isinstance(args[1], str) and isinstance(args[0], PyIter):
             return args[1] in ('__next__', '__iter__')          # an iterator
         if isinstance(fn, ast.Name) and fn.id in ('bool',) and len(args) == 1:
